@@ -12,3 +12,9 @@ func Emit(ev string, kv ...any) {}
 
 // Yield perturbs the goroutine schedule at a named point (no-op).
 func Yield(point string) {}
+
+// Gate blocks until a scheduled step may run (no-op).
+func Gate(run int64, stage, item int) {}
+
+// GateDone marks a scheduled step as done (no-op).
+func GateDone(run int64, stage, item int) {}
